@@ -22,6 +22,9 @@ tvars == <<vars, l>>
 
 Report(tag, cls) == PrintT(<<tag, l, cls>>)
 Judge(ok, cls) == IF ok THEN TRUE ELSE Report("VERDICT", cls)
+\* the twin of the action: in the C06 shapes the copy that never went through serde; otherwise the copy whose queries are
+\* all made WITH a unit trace (the bookkeeping must not change any result)
+TwinClass(e) == IF e.traced THEN "unit_trace_changes_result" ELSE "handoff_behaviour"
 Drift(ok, cls) == IF ok THEN TRUE ELSE Report("DRIFT", cls)
 
 IsEvent(e) == l <= Len(Rec) /\ Rec[l].ev = e /\ l' = l + 1
@@ -60,14 +63,14 @@ TraceFold ==
 
 AppliedOK(e) == /\ Judge(ToSet(e.applied) = RefApplied(rules, ov, script, pc), "applied")
                 /\ Judge(ToSet(e.applied) \subseteq {r.id : r \in ToSet(Eff(rules, ov))}, "attribution")
-                /\ Judge(ToSet(e.applied_plain) = ToSet(e.applied), "handoff_behaviour")
+                /\ Judge(ToSet(e.applied_plain) = ToSet(e.applied), TwinClass(e))
 
 TraceStatus ==
   /\ IsEvent("status") /\ QStatus
   /\ LET e == Rec[l] IN
      /\ Judge(e.c = Cur.c, "script_mismatch")
      /\ Judge(e.out = RefStatus(rules, ov, e.c)[1], "status")
-     /\ Judge(e.out = e.out_plain, "handoff_behaviour")
+     /\ Judge(e.out = e.out_plain, TwinClass(e))
      /\ AppliedOK(e)
      /\ Drift(<<e.out>> = last', "status_layer_I")
 
@@ -76,7 +79,7 @@ TraceHeaders ==
   /\ LET e == Rec[l] IN
      /\ Judge(e.c = Cur.c, "script_mismatch")
      /\ Judge(EqCI(e.out, HeaderOpsFold(RefHeaders(rules, ov, e.c), 1, e.h)), "headers")
-     /\ Judge(e.out = e.out_plain, "handoff_behaviour")
+     /\ Judge(e.out = e.out_plain, TwinClass(e))
      /\ AppliedOK(e)
      /\ Drift(e.out = FoldI(last', 1, e.h), "headers_layer_I")
 
@@ -86,7 +89,7 @@ TraceBody ==
      /\ Judge(e.c = Cur.c, "script_mismatch")
      /\ Judge(e.rich \/ e.out = "B" \o Concat(want, 1), "body")
      /\ Judge(e.some = (want # <<>>), "body")
-     /\ Judge(e.out = e.out_plain /\ e.some = e.some_plain, "handoff_behaviour")
+     /\ Judge(e.out = e.out_plain /\ e.some = e.some_plain, TwinClass(e))
      /\ AppliedOK(e)
      /\ Drift(e.rich \/ e.out = "B" \o Concat(last', 1), "body_layer_I")
 
@@ -96,7 +99,7 @@ TraceLog ==
      /\ Judge(e.c = Cur.c, "script_mismatch")
      /\ Judge(e.out_t = (IF want = "dflt" THEN TRUE ELSE want = "on"), "log")
      /\ Judge(e.out_f = (IF want = "dflt" THEN FALSE ELSE want = "on"), "log")
-     /\ Judge(e.out_t = e.out_plain_t /\ e.out_f = e.out_plain_f, "handoff_behaviour")
+     /\ Judge(e.out_t = e.out_plain_t /\ e.out_f = e.out_plain_f, TwinClass(e))
      /\ AppliedOK(e)
 
 TraceHandoff ==
